@@ -269,6 +269,21 @@ func (h *harness) evalSrc(src string, n, j, v, k int64, fail failSpec) obs {
 
 const sourceTmpl = `numbers(n).map(x->if tick0(x)=j then throw("boom") else x)`
 
+// memSuffix materialises the source: the stages behind it work on a list that holds its items in memory
+// (the fast paths of the list methods for such lists must be as lazy as the general ones).
+const memSuffix = ".eval()"
+
+func pipelineSrcMem(stages []*stageDef, mem bool) string {
+	r := sourceTmpl
+	if mem {
+		r += memSuffix
+	}
+	for i, s := range stages {
+		r = s.tmpl(r, tickNames[i+1])
+	}
+	return r
+}
+
 func pipelineSrc(stages []*stageDef) string {
 	r := sourceTmpl
 	for i, s := range stages {
@@ -311,6 +326,9 @@ type caseID struct {
 	Infinite  bool     `json:"infinite"`
 	FailStage int      `json:"failStage"`
 	FailCall  int      `json:"failCall"`
+	// Mem: the source is materialised with eval() before the stages (finite sources without a failing
+	// source element only); the source closure then runs for every element, the stages stay lazy
+	Mem bool `json:"mem"`
 }
 
 func (c caseID) repro(src string, v int64) map[string]any {
@@ -318,7 +336,7 @@ func (c caseID) repro(src string, v int64) map[string]any {
 	if c.Infinite {
 		n = hugeN
 	}
-	return map[string]any{"part": "pipeline", "src": src, "n": n, "v": v, "k": c.K, "stages": c.Stages, "consumer": c.Cons, "miss": c.Miss,
+	return map[string]any{"part": "pipeline", "src": src, "n": n, "v": v, "k": c.K, "stages": c.Stages, "consumer": c.Cons, "miss": c.Miss, "mem": c.Mem,
 		"infinite": c.Infinite, "failStage": c.FailStage, "failCall": c.FailCall}
 }
 
@@ -356,7 +374,7 @@ type verdict struct {
 func (h *harness) checkCase(stDefs []*stageDef, cdefs []*consDef, c caseID) (vs []verdict, o obs, a *analysis, src string, v int64, skipped string) {
 	stages := findStages(stDefs, c.Stages)
 	cons := findCons(cdefs, c.Cons)
-	src = cons.tmpl(pipelineSrc(stages))
+	src = cons.tmpl(pipelineSrcMem(stages, c.Mem))
 	// the value searched for: the element at position k of the consumer's input (or a value that is absent)
 	pre := analyse(stages, cons, c.K, 0, c.N, c.Infinite)
 	v = missValue
@@ -370,6 +388,10 @@ func (h *harness) checkCase(stDefs []*stageDef, cdefs []*consDef, c caseID) (vs 
 	a = analyse(stages, cons, c.K, v, c.N, c.Infinite)
 	if !a.determined {
 		return nil, o, a, src, v, "result not determined by a finite prefix of the infinite source"
+	}
+	if c.Mem {
+		// eval() runs the source closure once per element, whatever is demanded behind it
+		a.callsLo[0], a.callsHi[0] = c.N, c.N
 	}
 	fail := failSpec{c.FailStage, c.FailCall}
 	n, j := int64(c.N), int64(-1)
@@ -528,7 +550,7 @@ func runPlain(ctx *bex.Ctx) {
 			h.pipelineCases(ctx, stDefs, cdefs, stages, cons)
 		}
 	})
-	ctx.SpaceDone(fmt.Sprintf("source numbers(n).map(counting closure) -> every sequence of <= %d stages out of %d stage variants -> 9 consumers; decisive position k in 0..6 (+ absent value); n in {0,1,2,5,k+5,24,10^11}; failing call at every position 0..needed+3 of the source and of every stage closure and of the consumer predicate, or nowhere", maxStages, len(stDefs)))
+	ctx.SpaceDone(fmt.Sprintf("source numbers(n).map(counting closure) -> every sequence of <= %d stages out of %d stage variants -> 9 consumers; decisive position k in 0..6 (+ absent value); n in {0,1,2,5,k+5,24,10^11}, the finite sources also materialised with eval() before the stages; failing call at every position 0..needed+3 of the source and of every stage closure and of the consumer predicate, or nowhere", maxStages, len(stDefs)))
 
 	// (2) pipelines that are built but not consumed
 	ctx.Space("unconsumed")
@@ -584,25 +606,33 @@ func (h *harness) pipelineCases(ctx *bex.Ctx, stDefs []*stageDef, cdefs []*consD
 				if ctx.Expired() {
 					return
 				}
-				c := base
-				c.FailStage, c.FailCall = fs.stage, fs.call
-				var src string
-				if !ctx.Begin(func() map[string]any { return c.repro(cons.tmpl(pipelineSrc(stages)), v) }) {
-					continue
-				}
-				vs, o, a, src, v, _ := h.checkCase(stDefs, cdefs, c)
-				ctx.Eval()
-				h.account(ctx, c, cons, a, o, src, v)
-				for _, vd := range vs {
-					if vd.unspecified != "" {
-						ctx.Unspecified(vd.unspecified)
+				for _, mem := range []bool{false, true} {
+					if mem && (sp.inf || fs.stage == 0 || len(stages) == 0) {
 						continue
 					}
-					fid := classify(stages, cons, a, c, o, vd)
-					if fid != "" {
-						ctx.Add("cases_"+fid, 1)
+					c := base
+					c.FailStage, c.FailCall, c.Mem = fs.stage, fs.call, mem
+					var src string
+					if !ctx.Begin(func() map[string]any { return c.repro(cons.tmpl(pipelineSrcMem(stages, mem)), v) }) {
+						continue
 					}
-					ctx.Violate(vd.what, c.repro(src, v), vd.expected, vd.got, fid)
+					vs, o, a, src, v, _ := h.checkCase(stDefs, cdefs, c)
+					ctx.Eval()
+					if mem {
+						ctx.Add("cases_in_memory_source", 1)
+					}
+					h.account(ctx, c, cons, a, o, src, v)
+					for _, vd := range vs {
+						if vd.unspecified != "" {
+							ctx.Unspecified(vd.unspecified)
+							continue
+						}
+						fid := classify(stages, cons, a, c, o, vd)
+						if fid != "" {
+							ctx.Add("cases_"+fid, 1)
+						}
+						ctx.Violate(vd.what, c.repro(src, v), vd.expected, vd.got, fid)
+					}
 				}
 			}
 		}
@@ -973,6 +1003,7 @@ func replay(repro map[string]any) (string, bool) {
 		if !c.Infinite {
 			c.N = int(repro["n"].(float64))
 		}
+		c.Mem, _ = repro["mem"].(bool)
 		h := newHarness()
 		vs, o, a, src, v, skipped := h.checkCase(stageDefs(), consDefs(), c)
 		if skipped != "" {
